@@ -117,3 +117,48 @@ theorem runRange_grad_zero (s : St P O G Sc) (a n : Nat) (h : (a + n) % cfg.k = 
   rw [runRange_succ, iter_step _ _ _ _ _ _ (by rw [Nat.add_assoc]; exact h)]
 
 end DirectVerif.Train
+
+namespace DirectVerif.Train
+variable {P O G B L Sc : Type} (ops : Ops P O G B L) (lrAt : Nat → L) (cfg : Cfg) (batch : Nat → B)
+
+/-! ### runs with OOM-skipped iterations -/
+
+theorem runRangeO_succ (oom : Nat → Bool) (s : St P O G Sc) (a n : Nat) :
+    runRangeO ops lrAt cfg batch oom s a (n + 1) =
+      if oom (a + n) then oomSkip ops (runRangeO ops lrAt cfg batch oom s a n)
+      else iter ops lrAt cfg (runRangeO ops lrAt cfg batch oom s a n) (a + n) (batch (a + n)) := rfl
+
+theorem runRangeO_add (oom : Nat → Bool) (s : St P O G Sc) (a n m : Nat) :
+    runRangeO ops lrAt cfg batch oom s a (n + m) =
+      runRangeO ops lrAt cfg batch oom (runRangeO ops lrAt cfg batch oom s a n) (a + n) m := by
+  induction m with
+  | zero => rfl
+  | succ m ih => rw [← Nat.add_assoc, runRangeO_succ, ih, runRangeO_succ, Nat.add_assoc]
+
+theorem runRangeO_no_oom (oom : Nat → Bool) (s : St P O G Sc) (a n : Nat) (h : ∀ j, j < n → oom (a + j) = false) :
+    runRangeO ops lrAt cfg batch oom s a n = runRange ops lrAt cfg batch s a n := by
+  induction n with
+  | zero => rfl
+  | succ n ih =>
+    rw [runRangeO_succ, h n (Nat.lt_succ_self n), ih (fun j hj => h j (Nat.lt_succ_of_lt hj)), runRange_succ]
+    rfl
+
+/-- number of skipped iterations among `a … a+n-1` -/
+def oomCount (oom : Nat → Bool) (a : Nat) : Nat → Nat
+  | 0 => 0
+  | n + 1 => oomCount oom a n + if oom (a + n) then 1 else 0
+
+/-- the schedule advances once per *completed* iteration: every OOM-skipped iteration makes `last_epoch` lag one
+behind the iteration index for the rest of the run -/
+theorem runRangeO_epoch (oom : Nat → Bool) (s : St P O G Sc) (a n : Nat) :
+    (runRangeO ops lrAt cfg batch oom s a n).epoch + oomCount oom a n = s.epoch + n := by
+  induction n with
+  | zero => rfl
+  | succ n ih =>
+    rw [runRangeO_succ]
+    by_cases h : oom (a + n) = true
+    · simp only [h, if_true, oomCount, oomSkip]; omega
+    · have hf : oom (a + n) = false := by simpa using h
+      simp only [hf, Bool.false_eq_true, if_false, oomCount, iter_epoch]; omega
+
+end DirectVerif.Train
